@@ -24,6 +24,8 @@ pub fn race_world() -> WorldSpec {
     w.push(Entry::link("root/passwd-attack-abs-link", "/../../../../../../../../../../../../../../../../../../etc/passwd"));
     w.push(Entry::file("root/file", "INROOT-FILE"));
     w.push(Entry::file("root/a/b/c/d/leaf", "INROOT-LEAF"));
+    w.push(Entry::link("root/a/b/lnk", "INROOT-BODY-a-b-lnk"));
+    w.push(Entry::link("root/a/lnk", "b/c"));
     // outside: the suite's exchange partner plus decoys named like in-root entries
     w.push(Entry::dir("outsideroot"));
     w.push(Entry::file("outsideroot/c/d/leaf", "DECOY-OUTSIDEROOT-LEAF"));
@@ -83,6 +85,20 @@ pub fn race_mutations() -> Vec<(Mutation, Option<Mutation>)> {
     v
 }
 
+/// compound attacker actions (several mutations in one window): move a
+/// directory out of the root and plant never-inside objects under the names
+/// the lookup is about to use
+pub fn race_compound() -> Vec<Vec<Mutation>> {
+    let mv = |src: &str, dst: &str| Mutation::Rename { src: src.into(), dst: dst.into() };
+    vec![
+        vec![mv("root/a/b", "outside/landing/gone-b"), Mutation::Unlink { path: "outside/landing/gone-b/lnk".into() }, Mutation::Symlink { path: "outside/landing/gone-b/lnk".into(), target: "NEVER-INSIDE-BODY-1".into() }],
+        vec![mv("root/a", "outside/landing/gone-a"), Mutation::Unlink { path: "outside/landing/gone-a/lnk".into() }, Mutation::Symlink { path: "outside/landing/gone-a/lnk".into(), target: "/mnt/w/secret".into() }],
+        vec![mv("root/a/b/c/d", "outside/landing/gone-d"), Mutation::Unlink { path: "outside/landing/gone-d/leaf".into() }, Mutation::MkFile { path: "outside/landing/gone-d/leaf".into(), content: "NEVER-INSIDE-LEAF".into() }],
+        vec![mv("root/a/b/c", "outside/landing/gone-c"), mv("outside/landing/gone-c/d", "outside/landing/gone-c/d-orig"), mv("outside/landing/a/b/c/d", "outside/landing/gone-c/d")],
+        vec![mv("root/etc", "outside/landing/gone-etc"), Mutation::Unlink { path: "outside/landing/gone-etc/passwd".into() }, mv("outside/landing/etc/passwd", "outside/landing/gone-etc/passwd")],
+    ]
+}
+
 pub fn race_lookups() -> Vec<OpSpec> {
     let o = OpSpec::new;
     let s = |x: &str| x.to_string();
@@ -97,6 +113,10 @@ pub fn race_lookups() -> Vec<OpSpec> {
         o(Op::Resolve { path: s("etc-attack-rel-link/passwd"), nofollow: false }),
         o(Op::Resolve { path: s("a/b/c/d/leaf"), nofollow: false }).c(),
         o(Op::Resolve { path: s("b-link/c/d/../../../etc/passwd"), nofollow: false }),
+        o(Op::Readlink { path: s("a/b/lnk"), bufsz: 4096 }),
+        o(Op::Readlink { path: s("a/lnk"), bufsz: 4096 }).c(),
+        o(Op::Resolve { path: s("a/b/lnk"), nofollow: true }),
+        o(Op::OpenSubpath { path: s("etc/passwd"), flags: libc::O_RDONLY }),
     ]
 }
 
@@ -247,12 +267,13 @@ pub struct Attacker<'a> {
     pub escaped: Vec<(usize, String)>,
     /// catalogue to draw from instead of the generic generator (race world)
     pub catalogue: Option<Vec<(Mutation, Option<Mutation>)>>,
+    pub compound: Vec<Vec<Mutation>>,
     pub pending_undo: Vec<Mutation>,
 }
 
 impl<'a> Attacker<'a> {
     pub fn new(spec: &'a WorldSpec) -> Attacker<'a> {
-        Attacker { spec, seq: 0, escaped: Vec::new(), catalogue: None, pending_undo: Vec::new() }
+        Attacker { spec, seq: 0, escaped: Vec::new(), catalogue: None, compound: Vec::new(), pending_undo: Vec::new() }
     }
 }
 
@@ -262,6 +283,9 @@ impl Hooks for Attacker<'_> {
         // flip-flop: sometimes undo an earlier mutation
         if !self.pending_undo.is_empty() && rng.chance(1, 3) {
             return vec![self.pending_undo.pop().unwrap()];
+        }
+        if !self.compound.is_empty() && rng.chance(1, 6) {
+            return rng.pick(&self.compound).clone();
         }
         let n = if rng.chance(1, 5) { 2 } else { 1 };
         let mut v = Vec::new();
